@@ -476,6 +476,94 @@ theorem extras_isSome (addl : List (List (String × K))) (name : String)
     obtain ⟨e, he⟩ := ih (fun d' hd' => h d' (by simp [hd']))
     exact ⟨v :: e, by simp [extras, hv, he]⟩
 
+/-! ## the `additional` loop, parameter by parameter -/
+
+theorem fillCol_spec (d : List (String × K)) : ∀ (rows rows' : List (String × V × List K)),
+    fillCol d rows = some rows' →
+    rows'.map (fun x => (x.1, x.2.1)) = rows.map (fun x => (x.1, x.2.1)) ∧
+    ∀ x' ∈ rows', ∃ x ∈ rows, x'.1 = x.1 ∧ ∃ v, d.lookup (strip x.1) = some v ∧ x'.2.2 = x.2.2 ++ [v]
+  | [], rows', h => by simp [fillCol] at h; subst h; simp
+  | r :: rs, rows', h => by
+    simp only [fillCol] at h
+    split at h
+    · rename_i v t hv ht
+      simp only [Option.some.injEq] at h; subst h
+      obtain ⟨h1, h2⟩ := fillCol_spec d rs t ht
+      refine ⟨by simp [h1], ?_⟩
+      intro x' hx'
+      rcases List.mem_cons.mp hx' with rfl | hx''
+      · exact ⟨r, by simp, rfl, v, hv, rfl⟩
+      · obtain ⟨x, hx, rest⟩ := h2 x' hx''
+        exact ⟨x, List.mem_cons_of_mem _ hx, rest⟩
+    · simp at h
+
+/-- invariant of the loop: if every row carries the values of the dictionaries `done` (looked up by
+    its stripped name), then after the loop every row carries those of `done` and of all remaining
+    dictionaries; names and table values are untouched -/
+theorem attachCols_spec : ∀ (addl : List (String × List (String × K))) (cols : List String)
+    (rows r : List (String × V × List K)) (done : List (List (String × K))),
+    attachCols cols addl rows = .ok r →
+    (∀ x ∈ rows, done.map (fun d => d.lookup (strip x.1)) = x.2.2.map some) →
+    r.map (fun x => (x.1, x.2.1)) = rows.map (fun x => (x.1, x.2.1)) ∧
+    ∀ x ∈ r, (done ++ addl.map (·.2)).map (fun d => d.lookup (strip x.1)) = x.2.2.map some
+  | [], cols, rows, r, done, h, hinv => by
+    simp only [attachCols, Except.ok.injEq] at h; subst h
+    exact ⟨rfl, by simpa using hinv⟩
+  | (key, d) :: rest, cols, rows, r, done, h, hinv => by
+    simp only [attachCols] at h
+    split at h
+    · simp at h
+    · split at h
+      · simp at h
+      · rename_i rows' hf
+        obtain ⟨f1, f2⟩ := fillCol_spec d rows rows' hf
+        have hinv' : ∀ x ∈ rows', (done ++ [d]).map (fun d => d.lookup (strip x.1)) = x.2.2.map some := by
+          intro x' hx'
+          obtain ⟨x, hx, hn, v, hv, he⟩ := f2 x' hx'
+          rw [he, hn]
+          simp [hinv x hx, hv]
+        obtain ⟨g1, g2⟩ := attachCols_spec rest (cols ++ [key]) rows' r (done ++ [d]) h hinv'
+        refine ⟨g1.trans f1, ?_⟩
+        intro x hx
+        have := g2 x hx
+        simpa [List.append_assoc] using this
+
+theorem fillCol_isSome (d : List (String × K)) : ∀ (rows : List (String × V × List K)),
+    (∀ x ∈ rows, ∃ v, d.lookup (strip x.1) = some v) → ∃ rows', fillCol d rows = some rows'
+  | [], _ => ⟨[], rfl⟩
+  | r :: rs, h => by
+    obtain ⟨v, hv⟩ := h r (by simp)
+    obtain ⟨t, ht⟩ := fillCol_isSome d rs (fun x hx => h x (by simp [hx]))
+    exact ⟨(r.1, r.2.1, r.2.2 ++ [v]) :: t, by simp [fillCol, hv, ht]⟩
+
+/-- the loop goes through when no parameter name is taken (by a table column or an earlier
+    parameter) and every dictionary has every row's stripped name -/
+theorem attachCols_isSome : ∀ (addl : List (String × List (String × K))) (cols : List String)
+    (rows : List (String × V × List K)),
+    (∀ kd ∈ addl, kd.1 ∉ cols) → (addl.map (·.1)).Nodup →
+    (∀ kd ∈ addl, ∀ n ∈ rows.map (·.1), ∃ v, kd.2.lookup (strip n) = some v) →
+    ∃ r, attachCols cols addl rows = .ok r
+  | [], _, rows, _, _, _ => ⟨rows, rfl⟩
+  | (key, d) :: rest, cols, rows, hc, hnd, hcov => by
+    have hk : key ∉ cols := hc (key, d) (by simp)
+    obtain ⟨rows', hf⟩ := fillCol_isSome d rows (fun x hx =>
+      hcov (key, d) (by simp) x.1 (List.mem_map.mpr ⟨x, hx, rfl⟩))
+    have hnames : rows'.map (·.1) = rows.map (·.1) := by
+      have := congrArg (List.map Prod.fst) (fillCol_spec d rows rows' hf).1
+      simpa [List.map_map, Function.comp_def] using this
+    simp only [List.map_cons, List.nodup_cons, List.mem_map, not_exists, not_and] at hnd
+    obtain ⟨r, hr⟩ := attachCols_isSome rest (cols ++ [key]) rows'
+      (fun kd hkd => by
+        intro hmem
+        rcases List.mem_append.mp hmem with h1 | h1
+        · exact hc kd (by simp [hkd]) h1
+        · simp only [List.mem_singleton] at h1
+          exact hnd.1 kd hkd h1)
+      hnd.2
+      (fun kd hkd n hn => hcov kd (by simp [hkd]) n (hnames ▸ hn))
+    refine ⟨r, ?_⟩
+    simp [attachCols, hk, hf, hr]
+
 /-! ## the strip + sort-by-name step -/
 
 theorem prepTable_perm (rows : List (String × V)) :
